@@ -5,6 +5,9 @@
 
 #include <carquet/carquet.h>
 #include <string.h>
+#ifdef CARQUET_VERIF
+#include "core/verif_hook.h"
+#endif
 
 #if defined(_MSC_VER)
 #include <intrin.h>
@@ -154,6 +157,10 @@ carquet_status_t carquet_init(void) {
         return CARQUET_OK;
     }
 
+#ifdef CARQUET_VERIF
+    CARQUET_VERIF_EVENT(CARQUET_VERIF_INIT_BEGIN, &g_cpu_info, 3, 0);
+#endif
+
     /* Initialize CPU feature detection */
     memset(&g_cpu_info, 0, sizeof(g_cpu_info));
 
@@ -172,6 +179,10 @@ carquet_status_t carquet_init(void) {
      * making compression/decompression thread-safe. */
     carquet_gzip_init_tables();
     carquet_zstd_init_tables();
+
+#ifdef CARQUET_VERIF
+    CARQUET_VERIF_EVENT(CARQUET_VERIF_INIT_PUBLISH, &g_cpu_info, 3, 0);
+#endif
 
     /* Use memory barrier to ensure all writes are visible before flag is set.
      * Note: For full thread safety, callers should ensure carquet_init()
